@@ -332,6 +332,14 @@ def simplify_facts(p, F, depth=0):
             return T.close_binder(k, v, bnd, nb, a.sort)
         if k in ("sym", "bv"):
             return None
+        if k == "app" and a.args[0] in F.lower and a.args[0] in (getattr(F, "upper", None) or {}):
+            # an element pinned by equal bounds from both sides (`not np.any(n)`: n == 0 everywhere)
+            try:
+                lo_, up_ = P(F.lower[a.args[0]](*a.args[1:])), P(F.upper[a.args[0]](*a.args[1:]))
+                if T.equal(lo_, up_):
+                    return lo_
+            except TypeError:
+                pass
         new = T.rebuild_atom(a, lambda q: simplify_facts(q, F, depth + 1) if isinstance(q, Poly) else q)
         if len(new.terms) == 1 and new.terms[0][0] == ((a, 1),) and new.terms[0][1] == 1:
             return None
@@ -445,6 +453,9 @@ class Tr:
         elif k == "abs":
             x = self.poly(a.args[0])
             self.axioms += [v >= 0, z3.Or(v == x, v == -x), v >= x, v >= -x]
+        elif k in ("argmin", "argmax") and not a.args[0].hasbv:
+            # an index attaining the extremum over range(bound): 0 <= v < bound
+            self.axioms += [v >= 0, v < self.poly(a.args[0])]
         elif k == "ite":
             c = self.cond(a.args[0])
             self.axioms.append(v == z3.If(c, self.poly(a.args[1]), self.poly(a.args[2])))
